@@ -1,10 +1,10 @@
 (* C16 — model of utils/obfuscation/obfuscate.go (Obfuscator.ObfuscateJSON) and of
    the body path of streams/processors/har-collector/api_stream_obfuscator.go.
 
-   The model describes the code WITH patches/C16/fix-F-C16.patch applied
-   (isCursorInExcludedPath compares the cursor with the exclusion itself or with
+   The model describes /repo as it is (fix F-C16 is in /repo:
+   isCursorInExcludedPath compares the cursor with the exclusion itself or with
    what follows its `$.request.body` / `$.response.body` prefix).  The test of
-   the unpatched tree (strings.HasSuffix(path, cursor)) is kept as
+   the tree before the fix (strings.HasSuffix(path, cursor)) is kept as
    [excluded_suffix] for the refutation witness in Property.v only.
 
    Strings are lists of byte codes.  A number node carries its raw token (what
@@ -202,3 +202,49 @@ Definition run_collector (k : case_collector) : option json :=
   let '(req, excl, doc, tbl, observed) := k in
   let out := collector_body (lookup tbl) req excl doc in
   if json_eqb out observed then None else Some out.
+
+(* ---- the two call sites as a whole (body as text) ---- *)
+
+(* [parsed] = the document when fastjson parses the body, None on a parse error.
+   The result is the JSON text of a document or a plain text. *)
+Inductive body_out := OutText (t : bytes) | OutJson (j : json).
+
+(* apiStreamObfuscator.obfuscateBody(body, prefix):
+     if !obfuscateEnabled || body == "" { return body }
+     ObfuscateJSON(body, filterBodyExclusions(prefix)); on error ObfuscateString(body) *)
+Definition obfuscate_body (H : bytes -> bytes) (enabled request : bool)
+           (excl : list bytes) (body : bytes) (parsed : option json) : body_out :=
+  if negb enabled then OutText body else
+  match body with
+  | [] => OutText []
+  | _ => match parsed with
+         | Some j => OutJson (collector_body H request excl j)
+         | None => OutText (H body)
+         end
+  end.
+
+(* HARGeneratorPlugin.extractBody(rawBody, enabled, excludedBodyPaths, ""):
+     if !obfuscationEnabled { return body }
+     ObfuscateJSON(body, paths); on error ObfuscateString(body)   (also for "") *)
+Definition plugin_body (H : bytes -> bytes) (enabled : bool)
+           (excl : list bytes) (body : bytes) (parsed : option json) : body_out :=
+  if negb enabled then OutText body else
+  match parsed with
+  | Some j => OutJson (obfuscate_json H excl j)
+  | None => OutText (H body)
+  end.
+
+(* suite rawbody: bodies that do not parse (or obfuscation disabled); the output
+   is compared as text.
+   (plugin call site?, enabled, request?, exclusions, body, hash table, observed) *)
+Definition case_rawbody :=
+  (bool * bool * bool * list bytes * bytes * list (bytes * bytes) * bytes)%type.
+
+Definition run_rawbody (k : case_rawbody) : option bytes :=
+  let '(plugin, enabled, req, excl, body, tbl, observed) := k in
+  let out := if plugin then plugin_body (lookup tbl) enabled excl body None
+             else obfuscate_body (lookup tbl) enabled req excl body None in
+  match out with
+  | OutText t => if beq t observed then None else Some t
+  | OutJson _ => Some []
+  end.
